@@ -310,6 +310,10 @@ def make_app(spec, log, body_hook=None):
         def errh(err, eh=eh):
             if eh[0] == 'c':
                 return build_out(log, eh[1], app)
+            if eh[0] == 'mut':
+                # application code annotates the error object it is handed, then answers
+                err.headers['X-Debug'] = app.request.path
+                return build_out(log, eh[1], app)
             if eh[0] == 'bd':
                 return err.body
             raise BoomError('errh')
@@ -694,7 +698,7 @@ def ser_app(spec):
     toks.append(str(len(spec['errh'])))
     for code, eh in spec['errh']:
         toks.append(str(code))
-        toks += (['c'] + ser_out(eh[1])) if eh[0] == 'c' else [eh[0]]
+        toks += (['c'] + ser_out(eh[1])) if eh[0] in ('c', 'mut') else [eh[0]]   # (the model: a handed-out error is a copy)
     return toks
 
 
@@ -802,6 +806,11 @@ STATUS_STRS = ['200 OK', '404 Brain not found', '204 Nothing', '304 Same', '299 
                ' 201 Created ', '101 Switch', '999 Z']
 STATUS_ODD_STRS = ['200', 'abc', 'abc def', '99 Low', '1000 High', ' ', '', '200 ', '+200 OK', '0200 OK',
                    '2_0_0 OK', '200\tOK x', '200 OK\r\nX: y', '-200 OK', '20 0 OK', '200\xa0OK z']
+
+
+# error handlers that annotate the error object they are handed: on /repo d1483c6 that object is the
+# process-wide errors_map singleton (finding E, reported); switched on once the decision is in
+MUTATING_ERRH = [False]
 
 
 class Gen:
@@ -957,6 +966,8 @@ class Gen:
 
     def errh(self):
         r = self.rng.random()
+        if MUTATING_ERRH[0] and r < .2:
+            return ('mut', self.out(1))
         if r < .7:
             return ('c', self.out(2))
         if r < .9:
